@@ -357,6 +357,12 @@ func (c *flowCtx) armOf(body *ast.BlockStmt) *farm {
 				c.problem("error arm statement not understood: %s", pr(c.fset, s))
 				a.writes += 100
 			}
+		case *ast.AssignStmt, *ast.DeclStmt:
+			// a local computed inside the arm (message text …) is harmless unless it touches the response or the RPC client
+			if c.touches(s) {
+				c.problem("error arm statement not understood: %s", pr(c.fset, s))
+				a.writes += 100
+			}
 		default:
 			c.problem("error arm statement not understood: %s", pr(c.fset, s))
 			a.writes += 100
